@@ -147,7 +147,7 @@ def render(t) -> str:
         return f"ipaddress.{t[1]}"
     if k == "path":
         return "os.PathLike" if t[1] == "PathLike" else f"pathlib.{t[1]}"
-    if k in ("enum", "dc", "nt", "td", "stype"):
+    if k in ("enum", "dc", "nt", "td", "stype", "boxed"):
         return t[1]
     if k == "gdc":
         return f"{t[1]}[{', '.join(render(a) for a in t[2])}]"
